@@ -97,6 +97,10 @@ class RecFile(object):
 
     def truncate(self, *a):
         WRITES[0] += 1
+        if FAIL_AT[0] is not None:
+            if FAIL_AT[0] <= 0:
+                raise CrashInjected()
+            FAIL_AT[0] -= 1
         size = a[0] if a and a[0] is not None else self._f.tell()
         if LOG_ON[0]:
             LOG.append(("truncate", self._name, (size,)))
